@@ -69,6 +69,13 @@ PAIRD = ['as.buck 1200.0 0.3 25.0', 'as.morse 1.5 2.25 0.5', 'as.lj 0.125 2.5', 
 def gen_potable_eam(rng, fs=False, target=None):
     n = rng.choice([1, 2, 2, 3])
     els = rng.sample(POOL, n)
+    # a species label that is an element symbol in another case ('NI', 'al') is a species of its own: not in the element table, everything
+    # it shows in the file comes from [Species]
+    custom = None
+    if rng.random() < 0.3:
+        i = rng.randrange(n); custom = els[i].upper() if rng.random() < 0.6 else els[i].lower()
+        if custom in els or custom == els[i]: custom = None
+        else: els[i] = custom
     embed = [(e, rng.choice(EMBED)) for e in els if rng.random() < 0.85] or [(els[0], EMBED[0])]
     rng.shuffle(embed)
     if fs:
@@ -87,6 +94,8 @@ def gen_potable_eam(rng, fs=False, target=None):
         if rng.random() < 0.3: species[e + '.lattice_constant'] = repr(round(rng.uniform(2.5, 6), 3)) if rng.random() < 0.75 else '0.0'
         if rng.random() < 0.3: species[e + '.lattice_type'] = rng.choice(['bcc', 'hcp', 'fcc'])
         if rng.random() < 0.2: species[e + '.atomic_number'] = str(rng.randint(1, 118)) if rng.random() < 0.7 else '0'
+        if e == custom:
+            species.setdefault(e + '.atomic_number', str(rng.randint(1, 118))); species.setdefault(e + '.atomic_mass', repr(round(rng.uniform(1, 200), 3)))
     return {'potable_eam': True, 'embed': embed, 'dens': dens, 'ppairs': pairs, 'species': species, 'fs': fs,
             'nr': rng.choice([2, 3, 5, 8, 11]), 'nrho': rng.choice([2, 3, 6, 9]), 'cutoff': rng.choice([6.0, 5.5, 7.25]), 'cutoff_rho': rng.choice([50.0, 100.0, 2.5]),
             'target': target or 'setfl'}
